@@ -1,6 +1,7 @@
 import Xo.LayR
 import Xo.Model.Layout
 import Xo.Model.Path
+import Xo.Model.Index
 /-! glue between the protocol's types/values (names, index order, input forms) and the proof model `Lay`
 (positional fields, memory order, canonical values); used by the `lay` driver so that the proof model's own
 definitions are executed against the implementation on every reference-free case -/
@@ -38,7 +39,7 @@ partial def showP (t : CGen.Ty) (v : Lay.Val) : String :=
     "{" ++ ",".intercalate ((fs.zip vs).map fun ((n, ft), fv) => s!"{n}={showP ft fv}") ++ "}"
   | .array it _ ord, .arr shape items =>
     let idxs := LayM.ndindex shape
-    let strs := idxs.map fun idx => showP it (items.getD (LayM.mpos shape ord idx) default)
+    let strs := idxs.map fun idx => showP it (items.getD (Lay.mposL shape ord idx) default)
     "[" ++ " ".intercalate (shape.map toString) ++ "|" ++ ",".intercalate strs ++ "]"
   | _, _ => "?"
 
@@ -56,7 +57,7 @@ partial def pathP (t : CGen.Ty) (v : Lay.Val) : List LayM.Step → Option (List 
  | .item idx :: r =>
     match t, v with
     | .array it _ ord, .arr shape items =>
-      let k := LayM.mpos shape ord (idx.map Int.toNat)
+      let k := Lay.mposL shape ord (idx.map Int.toNat)      -- the definition the index theorems are about
       (pathP it (items.getD k default) r).map (k :: ·)
     | _, _ => none
 
